@@ -78,7 +78,7 @@ C14(e, p, o) ==
   LET rng == Rng(e)
       removed == (p.RH \ o.RH) \cap rng
   IN
-       If(\E h \in removed, k \in {1, 2} :
+       If(\E h \in removed, k \in {1, 2, 3} :
              ~(Cardinality(CallsFor(e, h, k)) = 1 /\ \A i \in CallsFor(e, h, k) : e.calls[i].out = "ok"),
           "C14_each_handler_once_per_removed_header")
   \cup If(\E i \in DOMAIN e.calls : ~e.calls[i].readable, "C14_header_readable_while_handler_runs")
@@ -87,7 +87,7 @@ C14(e, p, o) ==
           "C14_failed_handler_keeps_header_and_returns_error")
   \cup If(\E i \in DOMAIN e.calls : e.calls[i].h \notin rng, "C14_no_handler_call_outside_range")
   \cup If(retryTo # 0 /\ retryFail # 0 /\ e.from = p.tail /\ e.to = retryTo /\ e.failAt = 0 /\
-          (CallsFor(e, retryFail, 1) = {} \/ CallsFor(e, retryFail, 2) = {}), "C14_retry_invokes_handlers_again")
+          (CallsFor(e, retryFail, 1) = {} \/ CallsFor(e, retryFail, 2) = {} \/ CallsFor(e, retryFail, 3) = {}), "C14_retry_invokes_handlers_again")
 
 -----------------------------------------------------------------------------
 (* C06 — evaluated on recover events (a fresh Store opened on a crashed image, then the continuation) *)
